@@ -6,7 +6,7 @@ import ast
 
 from ..cfg import WithCtx
 from ..core import rule
-from ..dataflow import DefUse, origins
+from ..dataflow import DefUse, origins, depends_on
 from ..program import AnalysisError, dotted, src
 from ..core import walk_local  # inline-aware
 from .common import where
@@ -484,3 +484,86 @@ def a4(ctx):
     if n < 2:
         raise AnalysisError("only %d rmtree sites found (confirmed: 4)" % n)
     return obs
+
+
+@rule("C04", "B6", floor=2, kind="N",
+      desc="a restart never treats existing data as new: creating a store refuses an existing directory (same obligations "
+           "as C18/S7) - a create that quietly opens what is there makes the start-up code re-run its first-time "
+           "initialisation writes on every start, against whatever a crash left behind")
+def b6(ctx):
+    from .c18 import s7
+    return s7(ctx)
+
+
+@rule("C04", "B7", floor=14, kind="N",
+      desc="a write that did not happen is never acknowledged: a held index lock surfaces as LockedError from every "
+           "tree-store write (same obligations as C05/L0), and what a write returns is the id of the blob it recorded "
+           "(same obligations as C02/E3) - a refusal signalled through the return value is dropped by the callers that "
+           "ignore it (property setters), which then answer success")
+def b7(ctx):
+    from .c05 import l0
+    from .c02 import e3
+    return list(l0(ctx)) + list(e3(ctx))
+
+
+READERS = ("_get_raw", "_get_etag", "_iterblobs", "_get_current_tree", "get_ctag", "iter_with_etag", "get_file", "iter_changes",
+           "subdirectories", "get_type", "get_description", "get_displayname", "get_color", "get_comment")
+
+
+def reader_purity_obligations(ctx):
+    """The read API of the stores keeps nothing between calls: no reader assigns an attribute of the store object
+    (or an element of one).  A parsed index / tree / type remembered on the object is only as fresh as whatever
+    invalidates it - a commit that moves HEAD before the index file is written, a directory removed and
+    re-created by the web layer - and every view built on the reader then serves the remembered state."""
+    obs = []
+    for cq in (TREE, "xandikos.store.git.BareGitStore", "xandikos.store.vdir.VdirStore"):
+        ci = ctx.P.cls(cq)
+        for nm in READERS:
+            if ctx.P.lookup_method(ci, nm) is None:
+                continue
+            f = ctx.home_method(cq, nm)
+            try:
+                cfg = ctx.cfg(f)
+            except AnalysisError:
+                continue
+            me = f.params[0] if f.params else "self"
+            # a reader that is handed a content id (etag / ctag: git object ids, md5 of the file) may memoise what belongs
+            # to that id - content-addressed data never changes; the write must then be keyed by / built from the id
+            idp = {p_ for p_ in f.params[1:] if p_ in ("etag", "ctag", "old_ctag", "new_ctag", "sha", "object_id", "tree_id")}
+            du = None
+            writes = []
+            for n in cfg.stmt_nodes():
+                a = n.ast
+                if n.kind != "stmt" or not isinstance(a, (ast.Assign, ast.AugAssign, ast.AnnAssign)):
+                    continue
+                if isinstance(a, ast.AnnAssign) and a.value is None:
+                    continue
+                for t in (a.targets if isinstance(a, ast.Assign) else [a.target]):
+                    for tt in (t.elts if isinstance(t, (ast.Tuple, ast.List)) else [t]):
+                        base = tt.value if isinstance(tt, ast.Subscript) else tt
+                        d = dotted(base) or ""
+                        if isinstance(base, ast.Attribute) and d.startswith(me + ".") and not d.split(".")[1].startswith("__fo_"):
+                            if idp:
+                                du = du or DefUse(cfg)
+                                deps = set(depends_on(du, n, a.value))
+                                if isinstance(tt, ast.Subscript):
+                                    deps |= set(depends_on(du, n, tt.slice))
+                                if deps & idp:
+                                    continue
+                            writes.append((n, d))
+            obs.append(ctx.ob(not writes, "%s.%s" % (cq, nm), f.where, "reader %s keeps nothing on the store object" % nm,
+                              "no assignment to an attribute of self",
+                              "%s.%s remembers state on the store object (`%s`, line %d): later calls answer from what was remembered, not "
+                              "from the repository - after a write that moves HEAD before the index file is replaced, or after the collection "
+                              "was removed and re-created, listings, lookups and reports keep serving the old state"
+                              % (ci.name, nm, src(writes[0][0].ast)[:60] if writes else "", writes[0][0].lineno if writes else 0)))
+    if len(obs) < 20:
+        raise AnalysisError("only %d store readers found (confirmed: >= 20)" % len(obs))
+    return obs
+
+
+@rule("C04", "B8", floor=20, kind="S",
+      desc="what a reader answers after a restart is what it answers before: the read API of the stores keeps no state "
+           "on the store object between calls (no hand-made cache of the parsed index, tree, tag or type)")
+def b8(ctx):
+    return reader_purity_obligations(ctx)
